@@ -83,6 +83,15 @@ def step (line : String) : String :=
     match parseCols cols, mx.toNat? with
     | some cols, some mx => showParse cols (parseFile (parseDecomp tab) cols mx (unhex file))
     | _, _ => "bad-op"
+  | ["pagestats", cols, mx, file, tab] =>
+    match parseCols cols, mx.toNat? with
+    | some cols, some mx =>
+      match parseFile (parseDecomp tab) cols mx (unhex file) with
+      | .error e => "invalid " ++ e.replace " " "_"
+      | .ok f => match statsCheckFile cols f with
+        | none => s!"ok pages={((f.rowGroups.flatMap fun rg => rg.chunks.map fun sc => sc.pages.length).sum)}"
+        | some msg => "unsound " ++ msg.replace " " "_"
+    | _, _ => "bad-op"
   | ["pack", w, g] =>
     match w.toNat? with
     | some w => toHex (pack w (unhex g))
